@@ -16,7 +16,11 @@ SPEC = {
                    "hand-made regression inputs (header length < 32, cycles through compressed stack names, long chains, "
                    "records ending at EOF, record offsets of every alignment, duplicate raw names; a quarter of them: inputs whose "
                    "length is not a multiple of 32 with a complete linked record in the partial unit after the last full one) 14%; random bytes 12%. Real Parse under "
-                   "a watchdog (panic recovered, 3 s limit), run twice with different bytes after the input. "
+                   "a watchdog (panic recovered, 3 s limit), run twice with different bytes after the input. Plus (3%) "
+                   "Read/ReadFile scenarios: two file values (two processes) on the week's counter file opened by the real "
+                   "rotate1; A adds counters, B adds counters (75%: long names that extend the file beyond A's mapping), A "
+                   "adds again; after each phase counter.Read through A for its own counters, counters only B created and a "
+                   "name nobody created, and counter.ReadFile, with the file as it is on disk. "
                    "distinct = distinct case lines; every case compares the answer with the model and evaluates the "
                    "totality / faithfulness / soundness / determinism oracles"),
     ],
@@ -29,7 +33,9 @@ SPEC = {
                   "the list of (expanded name, value) of linked records with pairwise different stored names (arbitrary "
                   "bytes; a repeated stored name is answered corrupt); on EVERY well-formed file Parse returns exactly what "
                   "the independent reader of the documented layout returns (equal expanded names: the later record in "
-                  "bucket order wins); for every input the answer does not depend on bytes after the input. The model is "
+                  "bucket order wins); for every input the answer does not depend on bytes after the input; counter.Read / ReadFile return what the "
+                  "independent reader finds in the file's current contents, whatever mapping the reading process holds "
+                  "(C06_read_faithful, C06_read_finds_record, C06_read_file_faithful). The model is "
                   "tied to the code by differential execution on library-written, independently encoded, mutated and "
                   "random inputs.",
     "level_note": "The three defects found while building this check are fixed in /repo (219cb21 load32 bound, 6b4a27d "
